@@ -590,6 +590,7 @@ fn run_one(text: &str) {
                     ("euclidean", "manhattan") => go!(Euclidean, Manhattan),
                     ("euclidean", "bq_euclidean") => go!(Euclidean, Bqe),
                     ("bq_euclidean", "euclidean") => go!(Bqe, Euclidean),
+                    ("bq_euclidean", "cosine") => go!(Bqe, Cosine),
                     ("bq_euclidean", "bq_cosine") => go!(Bqe, Bqc),
                     _ => panic!("unsupported metric pair"),
                 }
